@@ -89,7 +89,7 @@ func propCfg(prop string) genCfg {
 		base.merges = 0.2
 		base.concerns = []int{0, 1, 2, 2}
 	case "C04":
-		base.backings = []string{"store"}
+		base.backings = []string{"store", "store", "store", "direct"}
 		base.flags = []string{"storeEach", "finalReopen", "finalVerify"}
 		base.reopen = 8
 		base.kids = 0.3
@@ -97,7 +97,7 @@ func propCfg(prop string) genCfg {
 		base.drainW = 8
 		base.bigVals = 0.4
 	case "C07":
-		base.backings = []string{"store"}
+		base.backings = []string{"store", "store", "store", "direct"}
 		base.flags = []string{"storeEach", "compactShape", "verifyEach", "dirCheck", "finalReopen"}
 		base.reopen = 2
 		base.concerns = []int{0, 1, 1, 2, 2}
@@ -442,7 +442,10 @@ func genSingle(c *Case, r *simrt.Rand, cfg genCfg) {
 		g.names = [][]string{{"x", "y"}, {"x"}, {"c1", "c2", ".r"}}[r.Intn(3)]
 	}
 	c.Opts.MergeOp = g.merges
-	store := c.Opts.Backing == "store"
+	store := c.Opts.Backing == "store" || c.Opts.Backing == "direct"
+	if c.Opts.Backing == "direct" {
+		g.kids = false // restoring child collections on reopen is OpenStoreCollection's business
+	}
 	if c.Opts.MergerIdleRunTimeoutMS > 0 && c.Policy.PAdvance == 0 {
 		c.Policy.PAdvance = pick(r, []float64{0, 0.01, 0.05})
 	}
@@ -504,7 +507,7 @@ func genSingle(c *Case, r *simrt.Rand, cfg genCfg) {
 			o := c.Opts
 			if r.Chance(0.5) {
 				o2 := genOpts(r, cfg)
-				o2.Backing = "store"
+				o2.Backing = c.Opts.Backing
 				o2.MergeOp = c.Opts.MergeOp
 				o = o2
 			}
